@@ -556,6 +556,12 @@ def bind_node_call(prog: Program, module: Module, ctx, call: ast.Call, star_arit
     for a in call.args:
         if isinstance(a, ast.Starred):
             n = star_arity(a.value)
+            if n is None and isinstance(a.value, ast.Name) and ctx is not None and not isinstance(ctx.node, ast.Lambda):
+                # *pair where `pair = f(...)` is a single-assignment temporary: judge the defining expression
+                defs = [x.value for x in own_nodes(ctx.node) if isinstance(x, ast.Assign) and len(x.targets) == 1 and
+                        isinstance(x.targets[0], ast.Name) and x.targets[0].id == a.value.id]
+                if len(defs) == 1:
+                    n = star_arity(defs[0])
             need(n is not None, f"{module.rel}:{call.lineno}: arity of starred argument {ast.unparse(a.value)} unknown")
             for k in range(n):
                 need(i < len(params), f"{module.rel}:{call.lineno}: too many positional arguments to Node")
